@@ -128,6 +128,83 @@ def kernel_contract(interp, func, calls):
     return contract
 
 
+FIELD_OUT = {'fuvw': ('u', 'v', 'w', 'phix', 'phiy'), 'fstrain': ('exx', 'eyy', 'gxy', 'kxx', 'kyy', 'kxy')}
+
+
+def field_atom(kind, cname, pkey, x, y, nl=None):
+    return P.atom('FIELD[%s%s](c=%s;panel=%s;x=%s;y=%s)' % (kind, '' if nl is None else ',NL=%s' % nl, cname, pkey,
+                                                           normal(x).text() if isinstance(x, P) else x, normal(y).text() if isinstance(y, P) else y))
+
+
+def panel_key(values):
+    import hashlib
+    return hashlib.sha1(repr(sorted((k, vkey(v)) for k, v in values.items())).encode()).hexdigest()[:10]
+
+
+def field_contract(interp, func, calls):
+    """fuvw / fstrain (contract proved in the C11 kernel check): for every requested point, in the order given, the
+    series / strain operator evaluated with the amplitude vector passed and the panel attributes read"""
+    sig, reads = panel_reads(func)
+    fname = func.node.name
+    modname = func.module.name.split('.')[-1]
+    defaults = func.defaults or []
+
+    def contract(itp, args, kwargs):
+        names = [n for t, n in sig]
+        bound = dict(zip(names, args))
+        for k, v in kwargs.items():
+            if k not in names:
+                raise SymRaise('TypeError', ("%s() got an unexpected keyword argument '%s'" % (fname, k),))
+            bound[k] = v
+        nd = len(defaults)
+        for idx, nme in enumerate(names):
+            if nme not in bound:
+                di = idx - (len(names) - nd)
+                if di >= 0:
+                    bound[nme] = defaults[di]
+                else:
+                    raise SymRaise('TypeError', ("%s() missing required argument '%s'" % (fname, nme),))
+        c, p, xs, ys = bound['c'], bound['p'], bound['xs'], bound['ys']
+        if not isinstance(p, Obj):
+            raise SymRaise('AttributeError', ('%s(): p is not a panel object' % fname,))
+        values = {}
+        for (objname, chain), ctype in sorted(reads.items()):
+            cur = p
+            for a in chain:
+                cur = itp.getattr(cur, a)
+            if ctype in ('double', 'int', 'long') and not _is_number(cur):
+                raise SymRaise('TypeError', ('%s(): p.%s must be a real number, not %s' % (fname, '.'.join(chain), 'NoneType' if cur is None else type(cur).__name__),))
+            values['.'.join(chain)] = pysym._unwrap0(cur)
+        if fname == 'fstrain':
+            al = values.get('alpharad')
+            if isinstance(al, P) and not al.is_zero():
+                if itp.truth(pysym.compare('!=', al, 0)):
+                    raise SymRaise('NotImplementedError', ('Conical shells not suported',))
+        xs = np.asarray(xs, dtype=object)
+        ys = np.asarray(ys, dtype=object)
+        if xs.ndim != 1 or ys.ndim != 1:
+            raise SymRaise('ValueError', ('Buffer has wrong number of dimensions (expected 1, got %d)' % xs.ndim,))
+        if xs.shape != ys.shape:
+            raise CheckerError('%s contract: xs and ys differ in length (kernel reads ys out of bounds)' % fname)
+        cname = getattr(c, 'name', None) or repr(c)
+        nl = None
+        if fname == 'fstrain':
+            nlv = bound.get('NLterms', 0)
+            nl = normal(nlv).text() if isinstance(nlv, P) else str(int(nlv))
+        pk = panel_key(values)
+        call = Opaque('field-call', fn=fname, model=modname, c=cname, panel=values, pkey=pk, nl=nl,
+                      num_cores=bound.get('num_cores'), npts=xs.shape[0])
+        calls.append(call)
+        outs = []
+        for kind in FIELD_OUT[fname]:
+            a = np.empty(xs.shape, dtype=object)
+            for i in range(xs.shape[0]):
+                a[i] = field_atom(kind, cname, pk, xs[i], ys[i], nl)
+            outs.append(a)
+        return tuple(outs)
+    return contract
+
+
 def class_requirement(func):
     """how the kernel source tests the class of its object argument (mechanically read from the source)"""
     for n in ast.walk(func.node):
@@ -164,8 +241,10 @@ def install(interp, calls):
     for mn in ('clt_bardell_field', 'clt_bardell_field_w'):
         mod = interp.module('compmech.panel.models.' + mn)
         for fn, f in list(mod.g.items()):
-            if isinstance(f, Func) and fn in ('fuvw', 'fstrain', 'fg'):
+            if isinstance(f, Func) and fn == 'fg':
                 interp.contracts[f.qualname] = kernel_contract(interp, f, calls)
+            elif isinstance(f, Func) and fn in ('fuvw', 'fstrain'):
+                interp.contracts[f.qualname] = field_contract(interp, f, calls)
 
     # C01 contract of read_stack: laminate object with ABD = spec(stack, plyts, laminaprops, offset)
     def read_stack(itp, args, kw):
@@ -224,6 +303,10 @@ class LamMatrix(object):
         for (kk, v) in reversed(self.writes):
             if kk == k:
                 return v
+        import hashlib
+        h = hashlib.sha1(repr(self.spec.key()).encode()).hexdigest()[:8]
+        if isinstance(k, tuple) and len(k) == 2 and all(isinstance(x, int) for x in k):
+            return P.atom('ABD%d%d<lam:%s>' % (k[0], k[1], h))
         return Opaque('ABDentry', spec=self.spec, idx=k)
 
     def sym_store(self, interp, k, v, node):
